@@ -132,3 +132,41 @@ theorem readPacket_ser (ext : Nat → Bytes → Bool) (n : Node) (rest : Bytes) 
   exact parse_ser ext n rest _ hw (by simp only [List.length_append]; omega)
 
 end Ber
+
+namespace Ber
+
+/-- a client reading whole messages one after another from a stream -/
+def readAll (ext : Nat → Bytes → Bool) : Nat → Bytes → Option (List Node)
+  | 0, _ => none
+  | _+1, [] => some []
+  | fuel+1, b :: bs =>
+    match readPacket ext (b :: bs) with
+    | none => none
+    | some (n, rest) => (readAll ext fuel rest).map (n :: ·)
+
+/-- reading a concatenation of well-formed messages returns exactly those messages, in order:
+    none torn, merged, lost or duplicated -/
+theorem readAll_serAll (ext : Nat → Bytes → Bool) (ns : List Node) (hw : ∀ n ∈ ns, n.WF ext) :
+    readAll ext (ns.length + 1) (serAll ns) = some ns := by
+  induction ns with
+  | nil => simp [serAll, readAll]
+  | cons n ns ih =>
+    have h2 := ser_length_ge_two n
+    have hr := readPacket_ser ext n (serAll ns) (hw n (by simp))
+    have ih' := ih (fun m hm => hw m (by simp [hm]))
+    simp only [serAll, List.length_cons]
+    cases hs : ser n ++ serAll ns with
+    | nil =>
+      have : (ser n ++ serAll ns).length = 0 := by rw [hs]; rfl
+      rw [List.length_append] at this; omega
+    | cons b bs =>
+      rw [← hs]
+      have : readAll ext (ns.length + 1 + 1) (ser n ++ serAll ns) =
+          match readPacket ext (ser n ++ serAll ns) with
+          | none => none
+          | some (n', rest) => (readAll ext (ns.length + 1) rest).map (n' :: ·) := by
+        rw [hs]; rfl
+      rw [this, hr]
+      simp [ih']
+
+end Ber
